@@ -11,6 +11,9 @@
 
 #define MAXU 8
 static const char *KEYS[MAXU] = {"", "a", "b", "cc", "d", "key-with-a-longer-name", "e", "f"};
+/* "pair" mode: two keys with the SAME 32-bit MurmurHash3 value of which one is a proper prefix of the other (found by search, checked at start-up) plus a third key with that prefix:
+ * whatever compares hashes first and names second only shows a flaw in the name comparison on such a pair */
+static const char *PAIRKEYS[3] = {"session6aa6b62c", "session", "sessio"};
 typedef struct { unsigned char b[8]; size_t n; int kind; } val_t;   /* kind 0 = bytes (put), 1 = string (putstr), 2 = int (putint) */
 static const val_t VAL[4] = {{{1, 0, 2}, 3, 0}, {"hello", 6, 1}, {{1, 0, 3}, 3, 0}, {"42", 3, 2}};   /* v0 and v2: same length, equal up to a NUL byte */
 static int RANGE, U, NV; static size_t EFFRANGE;
@@ -216,11 +219,18 @@ static void hugerange(void) {
 }
 static int worker(int argc, char **argv) {
     if (vc_replay_key && !strncmp(vc_replay_key, "hashtbl-hugerange", 17)) { hugerange(); return 0; }
+    if (vc_replay_key && !strncmp(vc_replay_key, "hashtblpair:", 12)) { int off; sscanf(vc_replay_key, "hashtblpair:%d:%n", &RANGE, &off); for (int i = 0; i < 3; i++) KEYS[i] = PAIRKEYS[i]; U = 3; NV = 2; setup(); vc_case("replay", vc_replay_key); return sm_replay(&SP, vc_replay_key + off); }
     if (vc_replay_key) {
         int off; if (sscanf(vc_replay_key, "hashtbl:%d:%d:%d:%n", &RANGE, &U, &NV, &off) < 3) return 1;
         setup(); vc_case("replay", vc_replay_key); return sm_replay(&SP, vc_replay_key + off);
     }
     if (argc >= 2 && !strcmp(argv[1], "hugerange")) { hugerange(); return 0; }
+    if (argc >= 3 && !strcmp(argv[1], "pair")) {
+        if (ref_mm32(PAIRKEYS[0], strlen(PAIRKEYS[0])) != ref_mm32(PAIRKEYS[1], strlen(PAIRKEYS[1]))) { printf("NOTE\tthe hash pair does not collide\n"); vc_stat_add("replay_divergence", 1); return 0; }
+        for (int i = 0; i < 3; i++) KEYS[i] = PAIRKEYS[i];
+        RANGE = atoi(argv[2]); U = 3; NV = 2; setup(); snprintf(SP.prefix, sizeof SP.prefix, "hashtblpair:%d:", RANGE);
+        sm_search(&SP, 0); vc_stat_add("full_hash_collision_pairs", 1); return 0;
+    }
     if (argc < 4) return 1;
     RANGE = atoi(argv[1]); U = atoi(argv[2]); NV = atoi(argv[3]);
     setup();
